@@ -90,7 +90,7 @@ class Ctx:
             return ["-O1", "-g1", "-fsanitize=address,undefined", "-fno-sanitize=vptr",
                     "-fno-omit-frame-pointer"]
         if variant == "tsan":
-            return ["-O1", "-g1", "-fsanitize=thread", "-DOCCA_THREAD_SHARABLE_ENABLED=1"]
+            return ["-O1", "-g1", "-fsanitize=thread"]
         return ["-O2", "-g1"]
 
     def build_harness(self, name, sources, variant="asan", extra=(), internal=True, cc="g++"):
@@ -511,7 +511,7 @@ def b_json(r):
     return out
 
 
-def run_replayer(ctx, exe, env, cases, timeout=900, max_restarts=40, args=()):
+def run_replayer(ctx, exe, env, cases, timeout=900, max_restarts=40, args=(), give_up_ok=False):
     """Write `cases` (list of json-able records, one per line) and run `exe in out start`,
     restarting after a crash.  Returns (outputs by case index, crashes[list of dict])."""
     inp = os.path.join(ctx.tmp, "in-%d.ndjson" % (int(time.time() * 1e6) % 10 ** 10))
@@ -524,7 +524,7 @@ def run_replayer(ctx, exe, env, cases, timeout=900, max_restarts=40, args=()):
     for attempt in range(max_restarts + 1):
         rc, out = sh([exe, inp, outp, str(start)] + list(args), timeout=timeout, env=env)
         logs.append(out[-6000:])
-        if rc == 0:
+        if rc == 0 and not any('"crash"' in l for l in open(outp)):
             break
         # find the crash line (last line of the output file) or infer from progress
         last = None
@@ -549,7 +549,11 @@ def run_replayer(ctx, exe, env, cases, timeout=900, max_restarts=40, args=()):
         if start >= len(cases):
             break
     else:
-        raise Broken("replayer kept crashing (%d restarts); last log:\n%s" % (max_restarts, logs[-1]))
+        # give_up_ok: the crashes collected so far are reported by the caller, the remaining cases are
+        # not executed (ctx.notes records it); otherwise the machinery is considered broken
+        if not (give_up_ok and crashes):
+            raise Broken("replayer kept crashing (%d restarts); last log:\n%s" % (max_restarts, logs[-1]))
+        ctx.notes.append("replay stopped after %d crashes; cases from index %d on were not executed" % (len(crashes), start))
     outs = {}
     for line in open(outp):
         try:
